@@ -43,16 +43,42 @@ theorem toksEvents_append (raw : Str) (a b : List Tok) (pre : Str) :
   | nil => simp [toksEvents, renderToks]
   | cons t a ih => simp [toksEvents, renderToks, ih]
 
-theorem toksOk_cons_of {t : Tok} {ts : List Tok} (ht : t.ok = true) (hts : toksOk ts = true)
-    (h : isText t = true → ∀ u r, ts = u :: r → isText u = false) : toksOk (t :: ts) = true := by
+theorem followOk_of_not_bare {t u : Tok} (h : isBare t = false) : followOk t u = true := by
+  cases t <;> simp [isBare] at h <;> rfl
+
+theorem toksOk_cons_of' {t : Tok} {ts : List Tok} (ht : t.ok = true) (hts : toksOk ts = true)
+    (h : isText t = true → ∀ u r, ts = u :: r → isText u = false)
+    (hf : ∀ c, t = .bare c → ∃ u r, ts = u :: r ∧ followOk t u = true) : toksOk (t :: ts) = true := by
   cases ts with
-  | nil => simpa [toksOk] using ht
+  | nil =>
+    have hnb : isBare t = false := by
+      cases hb : isBare t with
+      | false => rfl
+      | true =>
+        cases t <;> simp [isBare] at hb
+        rename_i c
+        obtain ⟨u, r, he, _⟩ := hf c rfl
+        cases he
+    simp [toksOk, ht, hnb]
   | cons u r =>
     simp only [toksOk, Bool.and_eq_true, Bool.not_eq_true', Bool.and_eq_false_iff]
-    refine ⟨⟨ht, ?_⟩, hts⟩
-    cases hx : isText t with
-    | false => exact Or.inl rfl
-    | true => exact Or.inr (h hx u r rfl)
+    refine ⟨⟨⟨ht, ?_⟩, ?_⟩, hts⟩
+    · cases hx : isText t with
+      | false => exact Or.inl rfl
+      | true => exact Or.inr (h hx u r rfl)
+    · cases hb : isBare t with
+      | false => exact followOk_of_not_bare hb
+      | true =>
+        cases t <;> simp [isBare] at hb
+        rename_i c
+        obtain ⟨u', r', he, hfo⟩ := hf c rfl
+        cases he; exact hfo
+
+/-- a token that is not a bare `<` / `&` in front of a well-formed sequence -/
+theorem toksOk_cons_of {t : Tok} {ts : List Tok} (ht : t.ok = true) (hts : toksOk ts = true)
+    (h : isText t = true → ∀ u r, ts = u :: r → isText u = false) (hnb : isBare t = false := by rfl) :
+    toksOk (t :: ts) = true :=
+  toksOk_cons_of' ht hts h (by intro c hc; rw [hc] at hnb; simp [isBare] at hnb)
 
 theorem toksOk_append_nontext : ∀ (a : List Tok) (u : Tok) (b : List Tok), toksOk a = true → toksOk (u :: b) = true →
     isText u = false → toksOk (a ++ u :: b) = true := by
@@ -61,12 +87,23 @@ theorem toksOk_append_nontext : ∀ (a : List Tok) (u : Tok) (b : List Tok), tok
   | nil => intro u b _ h _; simpa using h
   | cons t a ih =>
     intro u b ha hb hu
-    obtain ⟨ht, hts, hadj⟩ := toksOk_cons ha
-    refine toksOk_cons_of ht (ih u b hts hb hu) ?_
-    intro htx v r hv
-    cases a with
-    | nil => simp at hv; rw [← hv.1]; exact hu
-    | cons w a' => simp at hv; exact hadj htx w a' rfl |> fun h => hv.1 ▸ h
+    obtain ⟨ht, hts, hadj, hfol⟩ := toksOk_cons ha
+    refine toksOk_cons_of' ht (ih u b hts hb hu) ?_ ?_
+    · intro htx v r hv
+      cases a with
+      | nil => simp at hv; rw [← hv.1]; exact hu
+      | cons w a' => simp at hv; exact hadj htx w a' rfl |> fun h => hv.1 ▸ h
+    · intro c hc
+      obtain ⟨w, a', ha', hfo⟩ := hfol c hc
+      subst ha'
+      exact ⟨w, a' ++ u :: b, rfl, hfo⟩
+
+theorem toksOk_single {t : Tok} (ht : t.ok = true) (hnb : isBare t = false := by rfl) : toksOk [t] = true := by
+  simp [toksOk, ht, hnb]
+
+theorem toksOk_close_text (name s : Str) (hn : nameOk name = true) (hs : (Tok.text s).ok = true) :
+    toksOk [.close name, .text s] = true :=
+  toksOk_cons_of (t := .close name) hn (toksOk_single hs) (by intro h; cases h)
 
 /-- a document that is the text of a token sequence lies in the domain of the model; its events are the events of the
     tokens, then the `close` -/
@@ -126,7 +163,7 @@ theorem extract_block_state (p1 p2 name : Str) (attrs : List Attr) (trail : Str)
   have htoks : toksOk toks = true := by
     refine toksOk_cons_of ht1 (toksOk_cons_of hopen ?_ (by intro h; cases h)) (by intro _ u r h; cases h; rfl)
     exact toksOk_append_nontext body (.close name) [.text (nn ++ p2)] hbody
-      (by simp [toksOk, isText, ht2]; exact hnameok) rfl
+      (toksOk_close_text _ _ hnameok ht2) rfl
   have hev := events_of_toks toks htoks
   rw [hrender] at hev
   -- the events
@@ -213,6 +250,7 @@ theorem step_inline (raw : Str) (pos : Pos) (t : Tok) (hin : inlineTok t = true)
   | selfClose n as tr =>
     simp only [inlineTok, Bool.not_eq_true'] at hin
     simp [tokEvent, tagEvent, step, handleEmpty, hraw, htail, hin]
+  | bare c => simp [tokEvent, step, handleData, hraw, htail, Tok.render]
 
 theorem run_inline (raw : Str) : ∀ (ts : List Tok) (pre : Str) (st : ExSt), ts.all inlineTok = true →
     st.inraw = false → st.intail = false →
